@@ -69,6 +69,10 @@ func (a afSpec) sql() string {
 		call = "v - lag(v)"
 	case "range":
 		call = "acc_max(v) - acc_min(v)"
+	case "cnt0":
+		call = "acc_count(v) + 0"
+	case "coal":
+		call = "coalesce(lag(v), -1)"
 	default:
 		call = a.Fn + "(v)"
 	}
@@ -90,6 +94,9 @@ func (a afSpec) sql() string {
 }
 
 func (c14) Gen(rng *simrt.Rand, seed uint64, tier string) *Case {
+	if rng.Bool(0.3) {
+		return genC14Shared(rng, tier)
+	}
 	c := &Case{X: map[string]any{}}
 	part := rng.Bool(0.8)
 	fns := []string{"lag", "lag", "latest", "had_changed", "changed_col", "acc_sum", "acc_count", "acc_avg", "acc_min", "acc_max", "diff", "range"}
@@ -368,6 +375,14 @@ func (a afSpec) apply(st *refState, v any) any {
 			return fv - fl
 		}
 		return nil
+	case "cnt0": // acc_count(v) + 0
+		st.acc(v)
+		return st.cnt
+	case "coal": // coalesce(lag(v), -1)
+		if l := st.lagApply(v, 1, nil, false, true); l != nil {
+			return l
+		}
+		return -1
 	case "range": // acc_max(v) - acc_min(v)
 		st.acc(v)
 		if !st.hasNum {
@@ -414,6 +429,10 @@ func loadAfSpecs(c *Case) []afSpec {
 }
 
 func (c14) Run(e *Env) {
+	if e.C.Variant == "shared" {
+		runC14Shared(e)
+		return
+	}
 	if err := e.Setup(); err != nil {
 		e.R.Infra = "setup: " + err.Error()
 		return
